@@ -53,6 +53,9 @@ type c17Case struct {
 	Alias string `json:"alias_route_variable,omitempty"`
 }
 
+// a directory name long enough for method + path to pass 256 bytes
+var c17LongDir = strings.Repeat("d", 250)
+
 var (
 	c17Once   sync.Once
 	c17Base   string
@@ -84,7 +87,7 @@ func c17Setup() {
 				panic(err)
 			}
 		}
-		for _, f := range []string{"root/a.txt", "root/a.txt.css", "root/s.css.css", "root/sub/b.css", "root/sub/c.js", "root/sub/d.md", "root/s.css", "root/e.scss", "root/sub/m.mjs", "root/acss", "root/x.css.bak", "root/dir.js/inner.md", "root/dir.js/index.html",
+		for _, f := range []string{"root/" + c17LongDir + "/app.js", "root/" + c17LongDir + "/app.json", "root/" + c17LongDir + "/app.js.map", "root/a.txt", "root/a.txt.css", "root/s.css.css", "root/sub/b.css", "root/sub/c.js", "root/sub/d.md", "root/s.css", "root/e.scss", "root/sub/m.mjs", "root/acss", "root/x.css.bak", "root/dir.js/inner.md", "root/dir.js/index.html",
 			// names whose extension equals an allowed one only under Unicode case folding (long s, Kelvin sign), and in upper case
 			"root/k.j\u017f", "root/s.c\u017fs", "root/UP.CSS", "root/m.J\u212a"} {
 			c := "INSIDE:" + f
@@ -584,6 +587,14 @@ func c17Run(c c17Case, st *fw.Stats) []fw.Viol {
 		}
 	}
 	rec("/"+c17Tokens[c.First], 1)
+	if c.Cache > 0 && c.First == 1 {
+		// paths longer than 256 bytes that differ only behind that point, the allowed one first (route cache on)
+		for round := 0; round < 2; round++ {
+			for _, f := range []string{"/app.js", "/app.json", "/app.js.map", "/app.jsx/../../a.txt", "/app.js"} {
+				probe(base + c.Prefix + "/" + c17LongDir + f)
+			}
+		}
+	}
 	if st.WantSample() {
 		st.Sample(map[string]any{"handler": desc, "first_token": c17Tokens[c.First], "max_tokens": c.Depth, "tokens": c17Tokens})
 	}
@@ -593,7 +604,7 @@ func c17Run(c c17Case, st *fw.Stats) []fw.Viol {
 var c17Spec = fw.Spec[c17Case]{
 	ID:    "C17",
 	Level: "model_checking",
-	Rule: "complete enumeration: all request paths of <=3 (thorough 4) tokens over 36 tokens {.., ., empty, sub, a.txt, b.css, SECRET.txt, rootx, %2e%2e, ..%2f, %2f, \\, %5c.., %00, 'a.txt.', '.../', s.css, ..%5c, c.js, e.scss, m.mjs, acss, x.css.bak, dir.js, inner.md, 'a.txt;.css', 'd.md;x.js', 'a.txt%3B.css', ';', names with a long s / in upper case where the extension list says js / css} after each mount prefix, sent with URL.RawPath = the raw string and URL.Path = its decoding, for StaticDir / StaticFS(http.Dir) / StaticFiles(css|js) / StaticFile x prefixes {/d, /deep/d, /root (= the directory's own name)} x both UseEncodedPath settings (and with a global path variable named like the handlers' internal variable; and with the mount and a second mount of the sibling directory inside nested groups with 2+1 / 3+1 / 1+1 middleware, requested alternately; and with a second StaticFiles mount on the SAME prefix serving another root with another extension list, registered before / after; and reached through an alias route /al/{file|name} that rewrites the path to <prefix>/<value>.css and re-dispatches with HandleContext), against a real sandbox tree with marked files outside the root (parent directory, name-prefix sibling 'rootx'; also with a root directory whose own name contains a dot); plus relative roots in 6 spellings x 4 handlers x 5 arrangements (other mounts whose directory names differ by leading dots / slashes; another router or another mount registered while the process worked in a directory of the same layout; the root created only after the mount was registered; two groups mounting under the same prefix argument with different roots, the other one requested first) probed with all paths of <=2 tokens over 12 tokens; " +
+	Rule: "complete enumeration: all request paths of <=3 (thorough 4) tokens over 36 tokens {.., ., empty, sub, a.txt, b.css, SECRET.txt, rootx, %2e%2e, ..%2f, %2f, \\, %5c.., %00, 'a.txt.', '.../', s.css, ..%5c, c.js, e.scss, m.mjs, acss, x.css.bak, dir.js, inner.md, 'a.txt;.css', 'd.md;x.js', 'a.txt%3B.css', ';', names with a long s / in upper case where the extension list says js / css} after each mount prefix, sent with URL.RawPath = the raw string and URL.Path = its decoding, for StaticDir / StaticFS(http.Dir) / StaticFiles(css|js) / StaticFile x prefixes {/d, /deep/d, /root (= the directory's own name)} x both UseEncodedPath settings (with the route cache on also over paths of more than 256 bytes that differ only in their last bytes, the allowed file first; and with a global path variable named like the handlers' internal variable; and with the mount and a second mount of the sibling directory inside nested groups with 2+1 / 3+1 / 1+1 middleware, requested alternately; and with a second StaticFiles mount on the SAME prefix serving another root with another extension list, registered before / after; and reached through an alias route /al/{file|name} that rewrites the path to <prefix>/<value>.css and re-dispatches with HandleContext), against a real sandbox tree with marked files outside the root (parent directory, name-prefix sibling 'rootx'; also with a root directory whose own name contains a dot); plus relative roots in 6 spellings x 4 handlers x 5 arrangements (other mounts whose directory names differ by leading dots / slashes; another router or another mount registered while the process worked in a directory of the same layout; the root created only after the mount was registered; two groups mounting under the same prefix argument with different roots, the other one requested first) probed with all paths of <=2 tokens over 12 tokens; " +
 		"oracle: no body carries an outside marker or lists an outside directory, every 200 body is a file under the root, StaticFiles answers 200 only for allowed extensions, StaticFile only its file; non-trivial = a path containing a dot-dot in some encoding",
 	Assume: []string{"relative to the sandbox tree and the OS / file system the check runs on", "net/http's FileServer is part of the implementation under test, not of the oracle"},
 	Bounds: func(tier string) map[string]any {
